@@ -115,7 +115,24 @@ def gen_case(rng, tier, idx):
         levels = [gen_level(rng) for _ in range(rng.choice([1, 1, 2, 2, 3]))]
         queries.append({"levels": levels, "deep": rng.random() < 0.5, "roots": rng.random() < 0.3,
                         "via": rng.choice(["select", "select", "find", "getitem", "result_select", "result_getitem", "component"])})
-    return {"tree": tree, "queries": queries, "from_dict": rng.random() < 0.25}
+    case = {"tree": tree, "queries": queries, "from_dict": rng.random() < 0.25}
+    if rng.random() < 0.4:
+        # predicates built up from shared bases: base = a & b (or a | b) is combined with further leaves in several queries
+        case["share_predicates"] = True
+        for for_name in (True, False):
+            op = rng.choice(["and", "or"])
+            base = [op, gen_pred(rng, 0, for_name), gen_pred(rng, 0, for_name)]
+            for q in queries:
+                for lv in q["levels"]:
+                    if for_name and lv[0] == "pred" and rng.random() < 0.7:
+                        lv[1] = [op, base, gen_pred(rng, 0, True)]
+                    if for_name and lv[0] == "tuple_namepred" and rng.random() < 0.7:
+                        lv[1] = [op, base, gen_pred(rng, 0, True)]
+                    if not for_name and lv[0] == "tuple":
+                        for aq in lv[2]:
+                            if aq[0] == "pred" and rng.random() < 0.7:
+                                aq[1] = [op, base, gen_pred(rng, 0, False)]
+    return case
 
 
 # ---- reference semantics -------------------------------------------------------
@@ -219,16 +236,30 @@ def level_ref(lv, node):
 
 
 # ---- real query objects -----------------------------------------------------------
+_SHARED = [None]         # per case: {json of a sub-expression: predicate object}, or None = build everything afresh
+
+
 def real_pred(p):
+    """with sharing on, equal sub-expressions of all queries of a case are ONE predicate object that is combined again
+    and again with & | ~ (what `base = a & b; q1 = base & c; q2 = base & d` does in user code)"""
+    import json
     from insights.parsr import query as Q
+    cache = _SHARED[0]
+    key = json.dumps(p) if cache is not None else None
+    if key is not None and key in cache:
+        return cache[key]
     k = p[0]
     if k == "leaf":
-        return getattr(Q, p[1])(p[2])
-    if k == "not":
-        return ~real_pred(p[1])
-    if k == "and":
-        return real_pred(p[1]) & real_pred(p[2])
-    return real_pred(p[1]) | real_pred(p[2])
+        r = getattr(Q, p[1])(p[2])
+    elif k == "not":
+        r = ~real_pred(p[1])
+    elif k == "and":
+        r = real_pred(p[1]) & real_pred(p[2])
+    else:
+        r = real_pred(p[1]) | real_pred(p[2])
+    if key is not None:
+        cache[key] = r
+    return r
 
 
 def real_attr(aq):
@@ -360,6 +391,9 @@ def run_case(spec, ctx):
             self.doc = doc
     comp = Comp(top)
     any_nt = False
+    _SHARED[0] = {} if spec.get("share_predicates") else None
+    if _SHARED[0] is not None:
+        ctx.count("cases_with_shared_predicate_objects")
     for q in spec["queries"]:
         levels = q["levels"]
         via = q["via"]
